@@ -148,7 +148,7 @@ func alphabet(tier string) []string {
 		"regnode n2 deny", "regnode - ", "regnode n1 bogus", "regnode n1 empty",
 		"regpipe t1 p1 n2,n3", "regpipe t1 p1 n1,n2,n3", "regpipe t1 p2 n2,n4 deny", "regpipe t2 p1 n2,n3",
 		"regpipe t1 p1 n3", "regpipe t1 p1 n2,n1", "regpipe t1 p1 n1,n3", "regpipe t1 p1 n2,n9", "regpipe t1 p1 n2,-", "regpipe t1 p1 -",
-		"regpipe t1 - n2,n3", "regpipe - p1 n2,n3", "regpipe t1 p1 n2,n3 bogus", "regpipe t1 p1 n2,n3 empty", "regpipe t1 p2 n2,n3",
+		"regpipe t1 - n2,n3", "regpipe - p1 n2,n3", "regpipe t1 p1 n2,n3 bogus", "regpipe t1 p1 n2,n3 empty", "regpipe t1 p2 n2,n3", "regpipe t1 p1 n2,n3 deny",
 		"rmnode n1", "rmnode n2", "rmnode n3", "rmnode n9", "rmnode -",
 		"rmpipe t1 p1", "rmpipe t1 p2",
 		"rmpipenodes t1 p1", "rmpipenodes t1 p2", "rmpipenodes t1 p9", "rmpipenodes t9 p1", "rmpipenodes - p1", "rmpipenodes t1 -",
